@@ -51,6 +51,7 @@ type c14write struct {
 func runC14(r *Run) {
 	s := r.NewSim(600000)
 	variant := []string{"phased", "racy", "racy", "overflow"}[r.W.Pick(4)]
+	ackSteps := r.W.Pick(2) == 1 // also replay the read loop's SetState(Config) / SetState(Play) on the client's acknowledgements
 	r.Res.Variant = variant
 	prot := []proto.Protocol{version.Minecraft_1_20_2.Protocol, version.Minecraft_1_20_5.Protocol, version.Minecraft_1_21_2.Protocol}[r.W.Pick(3)]
 	peer, base := r.Pipe("client", "gate", simnet.Options{Seg: r.SegChoice()})
@@ -59,13 +60,13 @@ func runC14(r *Run) {
 	conn.SetState(state.Play)
 
 	seq := 0
-	inConfig := false   // as driven by the changer (true from the moment StartUpdate is buffered until SetOutboundState(Play) returned)
+	inConfig := false // as driven by the changer (true from the moment StartUpdate is buffered until SetOutboundState(Play) returned)
 	episode := 0
 	var leaveInv, leaveRet []int // per episode
 	var writes []*c14write
-	entered := false // the complete enter sequence has been performed
+	entered := false   // the complete enter sequence has been performed
 	var chgIv [][2]int // [inv,ret] sequence-number intervals of every enter / leave step sequence
-	phaseGate := 0 // phased variant: number of writers allowed to proceed concurrently with no state change in progress
+	phaseGate := 0     // phased variant: number of writers allowed to proceed concurrently with no state change in progress
 	changing := false
 
 	nW := 2 + r.W.Pick(3)
@@ -168,6 +169,16 @@ func runC14(r *Run) {
 			for i, n := 0, 1+r.W.Pick(6); i < n; i++ {
 				simrt.Yield("c14.changer-in-config")
 			}
+			if ackSteps {
+				// the client's acknowledgement of StartUpdate arrives: the read loop switches the
+				// whole connection to Config (SwitchSessionHandler -> SetState) while packets may
+				// already be held
+				r.Op("client-ack-config")
+				conn.SetState(state.Config)
+				for i, n := 0, r.W.Pick(4); i < n; i++ {
+					simrt.Yield("c14.changer-in-config")
+				}
+			}
 			if variant == "phased" {
 				changing = true
 				for phaseGate > 0 {
@@ -180,6 +191,10 @@ func runC14(r *Run) {
 			leaveInv = append(leaveInv, seq)
 			_ = conn.WritePacket(&cfgpacket.FinishedUpdate{})
 			conn.SetOutboundState(state.Play)
+			if ackSteps {
+				// ... and its acknowledgement of FinishedUpdate switches the connection to Play
+				conn.SetState(state.Play)
+			}
 			seq++
 			leaveRet = append(leaveRet, seq)
 			chgIv = append(chgIv, [2]int{leaveInv[len(leaveInv)-1], seq})
